@@ -284,7 +284,7 @@ class Translator:
             return (f"  if (!{tn}_done) {{ vp_cur = {t + 1}; vp_blk_kind[{t + 1}] = VP_B_NONE; {tn}_budget = {budget_expr}; thr_{tn}(); }}")
         for r in range(R):
             for t in order:
-                L.append(f"  {{ unsigned b = nondet_uchar(); __CPROVER_assume(b <= {maxb}); ")
+                L.append(f"  {{ unsigned b = VP_BUDGET({maxb}); ")
                 L.append("  " + ctx(t, "b") + " }")
         alld = ' && '.join(f"{tn}_done" for (tn, _) in threads) or '1'
         # optional solo phases: named threads run alone with unlimited budget
